@@ -168,10 +168,15 @@ def check_guards(ctx):
 
 
 def check_safe(ctx):
+    for mod_, cls in (('simulator', 'SafeModelCSimInterface'), ('lineage', 'SafeLineageCSimInterface')):
+        check_safe_table(ctx, mod_, cls)
+    check_safe_evaluators(ctx)
+
+
+def check_safe_table(ctx, mod_, cls):
     prog = ctx.prog
-    cls = 'SafeModelCSimInterface'
-    f = ctx.fn('simulator:%s.initialize_reaction_inputs' % cls)
-    where = ctx.loc('simulator', f)
+    f = ctx.fn('%s:%s.initialize_reaction_inputs' % (mod_, cls))
+    where = ctx.loc(mod_, f)
     # --- table
     U, D = 'self.update_array', 'self.delay_update_array'
     tab = 'self.reaction_input_indices'
@@ -248,17 +253,25 @@ def check_safe(ctx):
     ctx.ob('R6.4-safe-table', cls, not problems, where,
            'for every reaction the table lists each species with negative immediate or delayed stoichiometry and the amount consumed',
            '; '.join(problems) or 'table construction recognised')
-    init = ctx.fn('simulator:%s.__init__' % cls)
+    init = ctx.fn('%s:%s.__init__' % (mod_, cls))
     calls = [util.stmt_key(s) for s in init.body]
     ok = 'self.initialize_reaction_inputs()' in calls and any(c.startswith('super().__init__(') for c in calls) and \
         calls.index('self.initialize_reaction_inputs()') > [i for i, c in enumerate(calls) if c.startswith('super().__init__(')][0]
-    ctx.ob('R6.4-safe-table-built', cls, ok, ctx.loc('simulator', init),
+    ctx.ob('R6.4-safe-table-built', cls, ok, ctx.loc(mod_, init),
            'the constructor builds the requirement table after the base interface is set up', '')
-    # --- evaluators
-    for slot in ('compute_stochastic_propensities', 'compute_stochastic_volume_propensities'):
+
+
+def check_safe_evaluators(ctx):
+    prog = ctx.prog
+    tab = 'self.reaction_input_indices'
+    for mod_, cls, slot in (('simulator', 'SafeModelCSimInterface', 'compute_stochastic_propensities'),
+                            ('simulator', 'SafeModelCSimInterface', 'compute_stochastic_volume_propensities'),
+                            ('lineage', 'SafeLineageCSimInterface', 'compute_lineage_propensities')):
         dc, fn = prog.resolve_method(cls, slot)
-        ctx.functions.add('simulator:%s.%s' % (dc, slot))
-        w = ctx.loc('simulator', fn)
+        if fn is None:
+            raise AnalysisError('anchor vanished: %s.%s' % (cls, slot))
+        ctx.functions.add('%s:%s.%s' % (mod_, dc, slot))
+        w = ctx.loc(prog.classes[dc].module, fn)
         problems = []
         if dc != cls:
             problems.append('the safe interface does not override %s (executes %s.%s)' % (slot, dc, slot))
@@ -345,7 +358,7 @@ def check_safe(ctx):
 
 def check(ctx):
     prog = ctx.prog
-    prog.mod('types'); prog.mod('types.pxd'); prog.mod('simulator'); prog.mod('simulator.pxd')
+    prog.mod('types'); prog.mod('types.pxd'); prog.mod('simulator'); prog.mod('simulator.pxd'); prog.mod('lineage'); prog.mod('lineage.pxd')
     for key, wd in (('SSASimulator', False), ('DelaySSASimulator', True), ('VolumeSSASimulator', False),
                     ('DelayVolumeSSASimulator', True)):
         check_sim(ctx, key, wd)
@@ -354,4 +367,4 @@ def check(ctx):
     ctx.floor('R6.1-one-column-per-event', 4)
     ctx.floor('R6.2-zero-propensity', 4)
     ctx.floor('R6.3-guard', 4)
-    ctx.floor('R6.4-safe-eval', 2)
+    ctx.floor('R6.4-safe-eval', 3)
